@@ -331,3 +331,19 @@ def rename_some(sc, names, seed):
             names[i] = new
     assert sorted(names.values()) == [names[i] for i in ids], names
     return sc, names
+
+
+def plug_into_host(guest, names, gc_root):
+    """copy_from_statechart(guest) into a host: compound root with one basic state that is replaced by the
+    guest's root; the guest's other states are renamed by an order-preserving renaming function (C17)."""
+    host = Statechart('host', description='host', preamble=guest.preamble)
+    hroot = '!host'
+    plug = '!plug'
+    host.add_state(CompoundState(hroot, initial=plug), None)
+    host.add_state(BasicState(plug), hroot)
+    f = lambda n: n + '~'
+    host.copy_from_statechart(guest, source=names[gc_root], replace=plug, renaming_func=f)
+    new = {i: (plug if i == gc_root else f(n)) for i, n in names.items()}
+    assert sorted(new[i] for i in new if i != gc_root) == [new[i] for i in sorted(new) if i != gc_root]
+    host.validate()
+    return host, new, {hroot}
